@@ -302,3 +302,13 @@ def run(ctx, rep, tier):
     _run_k(ctx, rep, tier)
     from .c05 import check_getitem_contract
     check_getitem_contract(ctx, rep, "C04.h")      # the cycle check follows fall-through edges through set lookups
+
+
+_run_i4 = run
+
+
+def run(ctx, rep, tier):
+    _run_i4(ctx, rep, tier)
+    from .shared import delegate
+    delegate(ctx, rep, tier, "C18", ("C18.z",), "C04.i", "the cycle check sees every state an action may leave for: what an action kind performs inside it (the after-break actions of a "
+             "break, the branches of a conditional) is reported by embeds() and its override targets include theirs - a dropped target is a zero-width edge the check never walks")
